@@ -3,10 +3,10 @@ pub mod shim_arrow_imm {
 use vstd::prelude::*;
 
 // arrow2::array::PrimitiveArray<T>: view = Seq<Option<T>>; values_spec = the dense value buffer
-pub struct PrimitiveArray<T> { pub v: Vec<Option<T>> }
+pub struct PrimitiveArray<T> { pub v: Vec<Option<T>>, pub vals: Vec<T> }
 impl<T: Copy> PrimitiveArray<T> {
 	pub open spec fn view(&self) -> Seq<Option<T>> { self.v@ }
-	pub uninterp spec fn values_spec(&self) -> Seq<T>;
+	pub open spec fn values_spec(&self) -> Seq<T> { self.vals@ }
 	#[verifier::external_body]
 	pub broadcast proof fn axiom_values_spec(&self)
 		ensures #[trigger] self.values_spec().len() == self@.len(), self.values_spec().len() <= usize::MAX,
@@ -73,10 +73,21 @@ impl<'a> PairIter<'a> for RevEnumIter<'a, i32> {
 	#[verifier::external_body] fn next(&mut self) -> (r: Option<(usize, &'a i32)>) { unimplemented!() }
 }
 
+// `arr.values().iter().enumerate()` on the id column (named as one step: slice iteration in index order)
+#[verifier::external_body]
+pub fn enumerate_values<'a>(a: &'a PrimitiveArray<i32>) -> (r: EnumIter<'a, i32>) ensures r.rem_() == enum_seq(a.values_spec()) { unimplemented!() }
+
 // arrow2::bitmap::Bitmap
 pub struct Bitmap { pub v: Vec<bool> }
 pub open spec fn count_false(s: Seq<bool>) -> nat decreases s.len() {
 	if s.len() == 0 { 0 } else { count_false(s.drop_last()) + (if s.last() { 0nat } else { 1nat }) }
+}
+// proved: a bitmap cannot have more unset bits than bits
+pub proof fn lemma_count_false_le(s: Seq<bool>)
+	ensures count_false(s) <= s.len()
+	decreases s.len()
+{
+	if s.len() > 0 { lemma_count_false_le(s.drop_last()); }
 }
 impl Bitmap {
 	pub open spec fn view(&self) -> Seq<bool> { self.v@ }
